@@ -240,6 +240,9 @@ pub fn check_seq(c: &SeqCase, st: &mut Stats) -> Check {
         }
     }
     st.class("section()/clone() after the parent's uuid()");
+    if st.want_sample() {
+        st.sample(|| json!({"buffer length": c.len, "starts with BOM": c.bom, "in-place edits": c.edits, "permutation edits": c.swaps, "sections (fractions)": c.sections}));
+    }
     Ok(())
 }
 
